@@ -97,6 +97,18 @@ def sigFits (P : Params) (dec : Bytes → Option Bytes) (r : Bytes) : Bool :=
   | none => true
   | some b => decide (P.RS ≤ b.length)
 
+/-- the guard at the top of the function: the chunk is returned raw
+    (`return m.Data, nil`), without any check, iff
+    `SecurityMode == None && (SecurityPolicyURI == None || !isAsymmetric)` -/
+def carveOut (modeNone policyNone isAsym : Bool) : Bool :=
+  modeNone && (policyNone || !isAsym)
+
+/-- the whole function: carve-out, else decrypt / verify -/
+def receive (modeNone policyNone isAsym : Bool) (P : Params) (dec : Bytes → Option Bytes)
+    (verify : Bytes → Bytes → Bool) (r : Bytes) : Out :=
+  if carveOut modeNone policyNone isAsym then .ok (r.drop P.H)      -- `m.Data`
+  else verifyAndDecrypt P dec verify r
+
 def Out.isPanic : Out → Bool
   | .panic _ => true
   | _ => false
